@@ -38,6 +38,12 @@ def run(r):
     r.replay(drv, sa.behaviours, 'Signals', 'simulate (addition focus)')
     r.replay(None, sa.behaviours, 'Signals', 'simulate (addition focus, time unit 2^-30 s)', parallel=16, factory=SignalsDriver,
              factory_kw=dict(scale=2.0 ** -30))
+    # 3b. re-gridding focus: target grids touching the span at exactly one end sample, single-sample signals, shifted sources
+    sg = tlc.simulate('SignalsMC', 'Signals_regrid.cfg', 'C04/simregrid', num=2400 if thorough else 480, depth=7, seed=r.seed + 5)
+    if sg.violated:
+        raise tlc.TLCError('simulation violates %s' % sg.violated)
+    r.transitions += sg.generated
+    r.replay(None, sg.behaviours, 'Signals', 'simulate (re-gridding focus)', parallel=16, factory=SignalsDriver)
     # 4. regression witness of D1 (as-is model: with_times keeps the caller's array): TLC must find the
     #    NoAlias counterexample, and the real code must not exhibit it
     w = r.model_check('SignalsMC', 'Signals_asis.cfg', expect_violation='NoAlias')
